@@ -408,7 +408,8 @@ def i_DMULS(ins, fmap):
     Rm, Rn = ins.operands
     r1 = fmap(Rm).signed()
     r2 = fmap(Rn).signed()
-    x = fmap(r1 ** r2)
+    # r1, r2 are values already: not to be evaluated in the map again
+    x = r1 ** r2
     fmap[MACL] = x[0:32]
     fmap[MACH] = x[32:64]
 
@@ -418,7 +419,8 @@ def i_DMULU(ins, fmap):
     Rm, Rn = ins.operands
     r1 = fmap(Rm).unsigned()
     r2 = fmap(Rn).unsigned()
-    x = fmap(r1 ** r2)
+    # r1, r2 are values already: not to be evaluated in the map again
+    x = r1 ** r2
     fmap[MACL] = x[0:32]
     fmap[MACH] = x[32:64]
 
@@ -485,14 +487,16 @@ def i_MULR(ins, fmap):
 def i_MULS(ins, fmap):
     Rm, Rn = ins.operands
     s1, s2 = fmap(Rm).signed(), fmap(Rn).signed()
-    fmap[MACL] = fmap(s1 * s2)
+    # s1, s2 are values already: not to be evaluated in the map again
+    fmap[MACL] = s1 * s2
 
 
 @__pc
 def i_MULU(ins, fmap):
     Rm, Rn = ins.operands
     s1, s2 = fmap(Rm).unsigned(), fmap(Rn).unsigned()
-    fmap[MACL] = fmap(s1 * s2)
+    # s1, s2 are values already: not to be evaluated in the map again
+    fmap[MACL] = s1 * s2
 
 
 @__pc
